@@ -1058,7 +1058,12 @@ def convert_to_typing_types(x: typing.Type) -> typing.Type:
         return x  # only builtin aliases are converted; typing constructs nested in them are kept as they are
 
     origin = x.__origin__  # type: ignore # checked above
-    args = [convert_to_typing_types(a) for a in x.__args__]  # type: ignore
+
+    if origin is type:
+        # the argument of type[...] is a class: type[list] is complete, only a generic argument is converted
+        args = [a if isinstance(a, type) else convert_to_typing_types(a) for a in x.__args__]  # type: ignore
+    else:
+        args = [convert_to_typing_types(a) for a in x.__args__]  # type: ignore
 
     if origin is list:
         return typing.List[tuple(args)]
